@@ -165,6 +165,30 @@ def enumerate_faults(job):
     return cases
 
 
+def ill_posed_valves(rnd):
+    """valve arrangements that leave a head undetermined (every link into a junction is an active flow / pressure-sustaining
+    valve) or over-determine it (two PRVs with different settings into one junction): a run on them cannot be solved and must
+    say so the documented way"""
+    import c02
+    out = []
+    for k, (va, vb) in enumerate((("FCV", None), ("FCV", "PSV"), ("PRV", "PRV"), ("FCV", "FCV"))):
+        s = c02.base(9800 + k, "default")
+        s["patterns"] = {}
+        s["Dur"] = 3 * s["H"]
+        s["nodes"] = [{"name": "R0", "type": "R", "elev": 0.0, "head": 60.0, "pat": ""}, c02.junction("J0", 5.0, [{"base": 0.004, "pat": ""}]),
+                      c02.junction("J1", 2.5, [{"base": 0.003, "pat": ""}])]
+
+        def valve(name, t, setting):
+            return {"name": name, "type": t, "a": "J0", "b": "J1", "diam": 0.3, "minor": 0.0, "setting": setting, "init": 2}
+        sets = {"FCV": 0.01, "PSV": 30.0, "PRV": 25.0}
+        s["links"] = [{"name": "P0", "type": "pipe", "a": "R0", "b": "J0", "len": 300.0, "diam": 0.3, "rough": 100.0, "minor": 0.0,
+                       "cv": False, "init": 1}, valve("V1", va, sets[va])]
+        if vb:
+            s["links"].append(valve("V2", vb, sets[vb] + (10.0 if vb == va == "PRV" else 0.0) + (0.005 if vb == va == "FCV" else 0.0)))
+        out.append(s)
+    return out
+
+
 def main(tier, replay):
     ck = common.Check("C16", "fault_enumeration", tier)
     rnd = random.Random(common.SEED + 1616)
@@ -202,6 +226,12 @@ def main(tier, replay):
             jobs.append(("time", s, 10 if tier == "quick" else 40))
         for i in range(26 if tier == "quick" else 700):
             jobs.append(("general", netgen.gen(rnd, 9000 + i), 8 if tier == "quick" else 30))
+        # small multigraphs with valves that controls close, open and activate (parallel valves, valves that isolate parts):
+        # whatever cannot be solved must be reported the documented way
+        import c09
+        jobs += [("general", sc, 3) for sc in ill_posed_valves(rnd)]
+        for i in range(24 if tier == "quick" else 500):
+            jobs.append(("general", c09.multigraph_scenario(rnd, 9500 + i), 3 if tier == "quick" else 10))
     with cf.ProcessPoolExecutor(max_workers=common.NCPU) as ex:
         outs = list(ex.map(enumerate_faults, jobs, chunksize=1))
     cases = []
